@@ -203,14 +203,21 @@ def PI():
     return math.pi
 
 
+def _place_beyond(number, digits):
+    # is one unit of the place `digits` (a negative count: 10**-digits) more than twice the magnitude of the number?
+    # 10**k > 2**k, and k > bit length suffices; every float is below 2**1024
+    size = abs(number).bit_length() if isinstance(number, integer_types) else 0
+    return -digits > max(1024, size)
+
+
 @dispatcher.register_for('ROUND')
 def ROUND(number, digits):
     number = utils.parse_number(number)
     digits = utils.parse_number(digits)
     if utils.any_is_error((number, digits)):
         return error.VALUE
-    if digits < -308:
-        return number * 0  # no XL number has a digit that far to the left (round() would compute 10**-digits exactly)
+    if _place_beyond(number, digits):
+        return number * 0  # the nearest multiple of that place is 0 (round() would compute 10**-digits exactly)
     return round(number, digits)
 
 
@@ -221,9 +228,9 @@ def ROUNDUP(number, digits):
     if utils.any_is_error((number, digits)):
         return error.VALUE
     sign = 1 if number > 0 else -1
-    if digits > 308:
-        return number + 0  # no XL number has a digit that far to the right: nothing to round
-    if digits < -308:
+    if digits > 1074:
+        return number + 0  # every float is a multiple of 2**-1074 = 5**1074 * 10**-1074: nothing to round
+    if _place_beyond(number, digits):
         return error.NUM if number else number * 0  # one unit of that place is beyond the range of XL numbers
     if digits < 0:
         # 10**digits is an inexact float (1e-5 is 1.0000000000000001e-05): scale by the exact integer instead
@@ -238,10 +245,10 @@ def ROUNDDOWN(number, digits):
     if utils.any_is_error((number, digits)):
         return error.VALUE
     sign = 1 if number > 0 else -1
-    if digits > 308:
-        return number + 0  # no XL number has a digit that far to the right: nothing to round
-    if digits < -308:
-        return number * 0  # no XL number has a digit that far to the left
+    if digits > 1074:
+        return number + 0  # every float is a multiple of 2**-1074 = 5**1074 * 10**-1074: nothing to round
+    if _place_beyond(number, digits):
+        return number * 0  # one unit of that place exceeds the number: the multiple below it in magnitude is 0
     if digits < 0:
         # 10**digits is an inexact float: scale by the exact integer instead
         return sign * math.floor(abs(number) / 10**-digits) * 10**-digits
